@@ -72,6 +72,11 @@ def run(rep, rng, tier, replay=None):
     res = harness("history", dict(cases=cases), timeout=900)["results"]
     impl_t, model_t = TC.run_tables("C18", cases, batch=20)
     for c, o, ti, tm in zip(cases, res, impl_t, model_t):
+        if "restore_err" in o:
+            rep.count([c["edges"], c["signature"], c["D"]], len(c["edges"]) >= 3)
+            rep.violation("property", "the serialised sampler cannot be deserialised: %s" % o["restore_err"][:200], case=dict(c, ops=c["ops"][:1]), failing_input=True,
+                          what="serialise -> deserialise fails")
+            continue
         if "results" not in o:
             rep.violation("machinery", "history harness: %s" % str(o)[:300], case=dict(c, ops=[]))
             continue
